@@ -15,7 +15,9 @@ ENV = dict(os.environ, GOFLAGS='-mod=mod', GOPROXY='off', GOSUMDB='off', GOTOOLC
 WT = '/tmp/seedchk'
 PKG = {'workflow': './workflow', 'workflow_test': './workflow', 'engine': '.', 'engine_test': '.', 'builtinfunctions': './internal/builtinfunctions',
        'builtinfunctions_test': './internal/builtinfunctions', 'foreach': './internal/step/foreach', 'foreach_test': './internal/step/foreach',
-       'plugin': './internal/step/plugin', 'plugin_test': './internal/step/plugin'}
+       'plugin': './internal/step/plugin', 'plugin_test': './internal/step/plugin', 'main': './cmd/arcaflow', 'main_test': './cmd/arcaflow',
+       'loadfile': './loadfile', 'loadfile_test': './loadfile', 'infer': './internal/infer', 'infer_test': './internal/infer',
+       'yaml': './internal/yaml', 'yaml_test': './internal/yaml'}
 
 
 def sh(cmd, **kw):
@@ -64,6 +66,9 @@ def main():
                     txt = open(dm).read()
                     pkgname = re.search(r'^package (\w+)', txt, re.M).group(1)
                     pkg = PKG.get(pkgname)
+                    if pkg is None:
+                        o['demo'] = 'package %s not known to this tool' % pkgname
+                        continue
                     tests = re.findall(r'^func (Test\w+)\(', txt, re.M)
                     dst = os.path.join(WT, pkg, 'zz_seed_demo_test.go')
                     shutil.copy(dm, dst)
